@@ -187,7 +187,7 @@ Loop:
 			// 读取一个message
 			reader := bytes.NewReader(payload)
 			rr := bufio.NewReader(reader)
-			requestCtx, err = nazahttp.ReadHttpRequestMessage(rr)
+			requestCtx, err = readHttpRequestMessage(rr)
 			if err != nil {
 				Log.Errorf("[%s] read rtsp message error. err=%+v", session.uniqueKey, err)
 				break Loop
@@ -212,7 +212,7 @@ Loop:
 			}
 
 			// 读取一个message
-			requestCtx, err = nazahttp.ReadHttpRequestMessage(r)
+			requestCtx, err = readHttpRequestMessage(r)
 			if err != nil {
 				Log.Errorf("[%s] read rtsp message error. err=%+v", session.uniqueKey, err)
 				break Loop
